@@ -448,6 +448,115 @@ func c20CheckStorage(w *World, res *CaseResult) error {
 	return nil
 }
 
+// c20TempRoots: containers at the temporary address are part of valid histories (they live in the write set only and are
+// never committed). On a storage whose owned changes are all committed, with one / two temporary containers (several
+// slabs each: a nested child too large to be inlined, a large value) the health check must still accept, return the
+// temporary roots among the roots, and reject an added unreferenced temporary slab and a removed referenced one.
+func c20TempRoots(w *World, res *CaseResult) error {
+	obs := res.Obs
+	if w.ps.DeltasWithoutTempAddresses() != 0 {
+		return viol("harness", "owned changes pending before the temporary-root scenario")
+	}
+	var owned []atree.SlabID
+	for _, n := range w.allLive() {
+		if n.Addr != atree.AddressUndefined {
+			owned = append(owned, rootID(n))
+		}
+	}
+	th := atree.VerifThresholds()
+	var temps []atree.SlabID
+	var tempChild atree.SlabID
+	for t := 0; t < 2; t++ {
+		var tn *Node
+		var err error
+		if t == 0 {
+			tn, err = w.NewRootArray(atree.AddressUndefined, w.newTI(false))
+		} else {
+			tn, err = w.NewRootMap(atree.AddressUndefined, w.newTI(false), nil)
+		}
+		if err != nil {
+			return err
+		}
+		w.AddRoot(tn)
+		// a child that grows beyond the inline limit (its own temporary slab) and a large value (another one)
+		child, err := w.NewRootArray(atree.AddressUndefined, w.newTI(false))
+		if err != nil {
+			return err
+		}
+		for i := 0; i < 6; i++ {
+			if err := w.OpArrayAppend(child, &Node{Kind: KStr, S: w.strOfByteSize(int(th.MaxInlineArrayElementSize) / 2)}); err != nil {
+				return err
+			}
+		}
+		big := &Node{Kind: KStr, S: w.strOfByteSize(int(th.Target) + 40)}
+		if tn.Kind == KArr {
+			if err := w.OpArrayAppend(tn, child); err != nil {
+				return err
+			}
+			if err := w.OpArrayAppend(tn, big); err != nil {
+				return err
+			}
+		} else {
+			if err := w.OpMapSet(tn, &Node{Kind: KU64, U: 1}, child); err != nil {
+				return err
+			}
+			if err := w.OpMapSet(tn, &Node{Kind: KU64, U: 2}, big); err != nil {
+				return err
+			}
+		}
+		if err := w.handle(child); err != nil {
+			return err
+		}
+		if id := child.Arr.SlabID(); id != atree.SlabIDUndefined {
+			tempChild = id
+		}
+		temps = append(temps, rootID(tn))
+		want := append(append([]atree.SlabID(nil), owned...), temps...)
+		roots, err := atree.CheckStorageHealth(w.ps, len(want))
+		if err != nil {
+			return viol("health-reject", "CheckStorageHealth rejected a committed storage that also holds %d temporary-address container(s): %v", len(temps), err)
+		}
+		var got []atree.SlabID
+		for id := range roots {
+			got = append(got, id)
+		}
+		if !idsEqual(got, want) {
+			return viol("health-roots", "with %d temporary-address container(s): CheckStorageHealth returned roots %v, live roots are %v", len(temps), sortIDs(got), sortIDs(want))
+		}
+		obs["healthy-storages-with-temporary-roots-accepted"]++
+	}
+	nroots := len(owned) + len(temps)
+	// an unreferenced temporary slab beyond the expected root count
+	var ix atree.SlabIndex
+	putUint64(ix[:], 1<<40)
+	stray := atree.NewSlabID(atree.AddressUndefined, ix)
+	if err := w.ps.Store(stray, mintSlab(stray, 7)); err != nil {
+		return viol("harness", "%v", err)
+	}
+	if _, err := atree.CheckStorageHealth(w.ps, nroots); err == nil {
+		return viol("health-accept", "CheckStorageHealth accepted a storage with an unreferenced temporary-address slab beyond the expected root count")
+	}
+	obs["corruptions-rejected"]++
+	if err := w.ps.Remove(stray); err != nil {
+		return viol("harness", "%v", err)
+	}
+	if _, err := atree.CheckStorageHealth(w.ps, nroots); err != nil {
+		return viol("health-reject", "CheckStorageHealth rejects after the stray temporary slab was removed again: %v", err)
+	}
+	// a referenced temporary slab removed
+	if tempChild != atree.SlabIDUndefined {
+		if err := w.ps.Remove(tempChild); err != nil {
+			return viol("harness", "%v", err)
+		}
+		if _, err := atree.CheckStorageHealth(w.ps, nroots); err == nil {
+			return viol("health-accept", "CheckStorageHealth accepted a storage whose referenced temporary-address slab %s was removed", tempChild)
+		}
+		obs["corruptions-rejected"]++
+		obs["temporary-slab-corruptions-tried"]++
+	}
+	return nil
+}
+
 func runC20(c *CaseCtx) *CaseResult {
 	r := rand.New(rand.NewSource(c.CaseSeed() ^ 0xc20))
 	kind := "array"
@@ -513,6 +622,9 @@ func runC20(c *CaseCtx) *CaseResult {
 		}
 		if err == nil {
 			err = c20CheckStorage(w, res)
+		}
+		if err == nil {
+			err = c20TempRoots(w, res)
 		}
 		if err != nil {
 			if v, ok := err.(*Violation); ok {
@@ -1369,7 +1481,7 @@ func init() {
 			"Corrupted side, for EVERY slab (sampled to 70 when larger, keeping every reference kind): (1) delete a referenced slab - at ledger level + fresh storage, through the storage API uncommitted, and committed; (2) add an unreferenced copy / a fresh large-value slab with the expected root count unchanged - ledger level and API; (3) duplicate a referencing register so its children have two parents (root count unchecked), and patch a parent so that two of its own references point at the same child (displaced child left behind / removed); (4) move a referenced child to a foreign owner address and patch the 16-byte reference. Every corruption must be rejected; broken-reference lists must equal the deleted ids that are reachable. " +
 			"non-trivial = >3 deletions, a double reference and a foreign-owner corruption were applied and an index->child reference was among the kinds; distinct by hash(config, operation list)",
 		Assumptions: []string{"corruptions are single-slab; index->child references are not byte-patchable for kind (4) (the address is stored once per index slab) and are covered by kinds (1)-(3)"},
-		Mandatory:   []string{"healthy-storages-accepted", "corruptions-rejected", "deletions-tried", "additions-tried", "double-references-tried", "same-parent-double-references-tried", "foreign-owner-tried", "childrefs-queries", "childrefs-broken-found", "childrefs-broken-found-pending-deletion", "warm-pending-health-checks", "kind:index->child", "kind:element", "kind:group->collision-slab", "kind:wrapper->element"},
+		Mandatory:   []string{"healthy-storages-accepted", "corruptions-rejected", "deletions-tried", "additions-tried", "double-references-tried", "same-parent-double-references-tried", "foreign-owner-tried", "childrefs-queries", "childrefs-broken-found", "childrefs-broken-found-pending-deletion", "warm-pending-health-checks", "healthy-storages-with-temporary-roots-accepted", "temporary-slab-corruptions-tried", "kind:index->child", "kind:element", "kind:group->collision-slab", "kind:wrapper->element"},
 	})
 	register(&Prop{
 		ID: "C17", Level: "exploration", Run: runC17, Cases: cases(64, 320), MinNonTrivial: 8,
